@@ -120,6 +120,31 @@ def run_shard(sh):
                 res.outcome(repr((exp.records, exp.error))[:60])
         if qi % 23 == 1:
             res.sample({'query': text, 'table_pairs': len(tabsA) * len(tabsB)})
+    if sh.get('registry'):
+        # the join table named in the query is the one the registry holds under exactly that id: rbql.query + ListTableRegistry with case-variant / prefix decoy tables
+        from vf import drive
+        ids = ['b', 'B', 'Jt', 'jt', 'countries.csv', 'Countries.csv', 'bb']
+        decoyB = [[k, 'DECOY'], [k, 'DECOY2'], ['zz', 'DECOY']]
+        full = sh['tier'] == 'thorough'
+        regA, regB = (tabsA[::7] if full else tabsA[::6]) + tabsA_extra[:1], (tabsB[::7] if full else tabsB[::6]) + tabsB_extra[:2]
+        for gi, q in enumerate(sp_['qs']):
+            if gi % 16 != sh['registry'] - 1:
+                continue
+            for ji, jid in enumerate(ids):
+                text = refql.render(q, 'py', refql.Spelling(swap_on=(ji % 2 == 1)), join_table_id=jid)
+                variants = [v for v in (jid.lower(), jid.upper(), jid.swapcase(), jid[:1].upper() + jid[1:].lower(), jid[:-1], jid + 'x') if v and v != jid]
+                decoys = [(v, decoyB) for v in dict.fromkeys(variants)]
+                for first in ((True, False) if full else (gi % 2 == 0,)):
+                    runner = lambda t, A2, B2, an, bn, jid=jid, decoys=decoys, first=first: drive.run_py_registry(t, A2, B2, an, bn, jid, decoys, first)
+                    for B in regB:
+                        for A in regA:
+                            exp, got, why = qcheck.run_case(res, q, A, B, diagnose=lambda *a: 'join-table-lookup-mismatch', text=text, runner=runner)
+                            res.states += 1
+                            if why is None:
+                                res.feat('registry_lookup_cases')
+                                if exp.error is None:
+                                    res.nontrivial += 1
+        return res
     if sh.get('hostile'):
         ta = list(qcheck.tables_upto(sp_['hrowsA'], 2))
         tb = list(qcheck.tables_upto(sp_['hrowsB'], 2))
@@ -141,13 +166,15 @@ def main(tier, seed):
     shards = [{'tier': tier, 'seed': seed, 'lo': lo, 'hi': hi} for lo, hi in core.chunks(len(sp_['qs']), 128)]
     for lo, hi in core.chunks(len(sp_['hq']), 16):
         shards.append({'tier': tier, 'seed': seed, 'lo': 0, 'hi': 0, 'hostile': True, 'hlo': lo, 'hhi': hi})
+    shards += [{'tier': tier, 'seed': seed, 'lo': 0, 'hi': 0, 'registry': r + 1} for r in range(16)]
     res = core.run_shards('vf.checks.c04', shards)
     return core.finish(PID, tier, seed, res, t0,
         rule='5 join kinds x 8 key lists x 10 downstream shapes x all (A, B) table pairs up to the row bound (5-row alphabets each: duplicate keys, unmatched keys, rows lacking a key field); '
+             'every query also through rbql.query + ListTableRegistry with 7 join-table ids (letter case, dots) next to case-variant / prefix decoy tables placed before and after, over a sub-grid of the table pairs; '
              'states = (query, A, B) nodes, transitions = row-append edges in either table; non-trivial = some A record has >= 2 matches or none',
         assumptions=['RefQL nested-loop pairing in B order is the statement of JOIN', 'ORDER BY on b-fields only under join kinds that never produce None keys'],
         extra={'queries': len(sp_['qs'])},
-        min_features={'larger_tables': 1000, 'some_A_with_2plus_matches': 1000, 'some_A_unmatched': 1000, 'ref_error_runtime': 1000, 'ref_error_runtime_b': 100})
+        min_features={'larger_tables': 1000, 'some_A_with_2plus_matches': 1000, 'some_A_unmatched': 1000, 'ref_error_runtime': 1000, 'ref_error_runtime_b': 100, 'registry_lookup_cases': 20000})
 
 
 def replay(rep):
